@@ -56,6 +56,28 @@ func crashSeeds(thorough bool) []*CrashSeed {
 			}
 		}
 	}
+	// histories in a session that follows a crash and a recovery with a loser: T11 (two statements, in
+	// flight) and T12 (committed: its commit forces T11's records to disk), process death, restart
+	for _, base := range append([]*CrashSeed{}, seeds...) {
+		if !thorough && !(strings.HasPrefix(base.Name, "small") && base.MemKB == 128) && !(strings.HasPrefix(base.Name, "page-full") && base.MemKB == 32) {
+			continue // quick: one pool size per seed shape
+		}
+		a11, a12 := crashAlphabet(base, 11), crashAlphabet(base, 12)
+		pro := []HOp{{Txn: 11, Kind: "begin"}}
+		first, second, other := "upd1", "grow2", "ins"
+		if strings.HasPrefix(base.Name, "page-full") {
+			first, second, other = "upd1", "del3", "key4"
+		}
+		if strings.HasPrefix(base.Name, "two-pages") {
+			continue
+		}
+		pro = append(pro, HOp{Txn: 11, Kind: "stmt", Stmt: a11[first]}, HOp{Txn: 11, Kind: "stmt", Stmt: a11[second]},
+			HOp{Txn: 12, Kind: "begin"}, HOp{Txn: 12, Kind: "stmt", Stmt: a12[other]}, HOp{Txn: 12, Kind: "commit"})
+		cp := *base
+		cp.Name = base.Name + "/after-recovery"
+		cp.Prologue = pro
+		seeds = append(seeds, &cp)
+	}
 	// one transaction whose log records exceed the log buffer (129 pages): the record that straddles the
 	// end of the buffer, the flush in the middle of a statement and a commit whose records span two log
 	// writes. 3 800-byte rows (one per heap page, no index on the wide column), pool large enough not to evict.
@@ -197,6 +219,14 @@ func glueBegin(h []HOp) []HOp { return h }
 // crashHistories enumerates the histories of a seed for a tier.
 func crashHistories(seed *CrashSeed, thorough bool) [][]HOp {
 	var out [][]HOp
+	if strings.HasSuffix(seed.Name, "/after-recovery") {
+		// single-statement transactions (and a checkpoint at every quiescent position) in the new session
+		for _, p := range crashPrograms(seed, 1) {
+			h := progOps(seed, 1, p)
+			out = append(out, h, append(append([]HOp{}, h...), HOp{Kind: "checkpoint"}), append([]HOp{{Kind: "checkpoint"}}, h...))
+		}
+		return out
+	}
 	if strings.HasPrefix(seed.Name, "huge") {
 		for _, p := range []crashProg{
 			{[]string{"huge150"}, "commit"}, {[]string{"huge150"}, "abort"},
